@@ -83,6 +83,11 @@ Error format_type_id(String& sb, TypeId type_id) noexcept {
   uint32_t type_size = TypeUtils::size_of(type_id);
   TypeId scalar_type = TypeUtils::scalar_of(type_id);
 
+  // Mask and MMX types have an unsigned integer as their scalar type, but names of their own.
+  if (TypeUtils::is_mask(type_id) || TypeUtils::is_mmx(type_id)) {
+    scalar_type = type_id;
+  }
+
   switch (scalar_type) {
     case TypeId::kIntPtr : type_name = "intptr" ; break;
     case TypeId::kUIntPtr: type_name = "uintptr"; break;
